@@ -28,7 +28,7 @@ COMPONENTS = {"real": "whole IPhreeqc library (C++ class, C binding, Fortran glu
 ASSUMPTIONS = ["a text cell corresponds to the table cell of the same position among the non-empty cells of the row; numbers are re-rendered in the text cell's own style and precision (no list of printf formats assumed)",
                "the text heading of a -totals column is the element name, the table heading carries the unit suffix (accepted as the same column)"]
 REACH_PROBES = ["blocks_checked", "string_vs_table", "file_vs_string", "out_of_range_sweeps", "unknown_user_number", "binding_compared", "high_precision_blocks", "string_cells", "fault_fired"]
-tiers = {"quick": dict(runs=3000, budget_s=150, workers=16), "thorough": dict(runs=60000, budget_s=1700, workers=16)}
+tiers = {"quick": dict(runs=6000, budget_s=150, workers=16), "thorough": dict(runs=60000, budget_s=1700, workers=16)}
 
 USERNUMS = [1, 2, 3, 5, 10, 77]
 SOL = "SOLUTION 1\n temp 25\n pH 7\n Na 1.5\n Cl 1\n Ca 0.6\n C 1.4\n"
